@@ -613,6 +613,22 @@ def switch_on_call(fn, target):
             continue
         cond = C.switch_condition(fn, b)
         neg = False
+        # `let done = x.is_empty(); if done || ..`: the switch is on a named copy of the call's result
+        hops = 0
+        while cond and cond[0] == "use" and hops < 4:
+            hops += 1
+            l = C.op_local(cond[1])
+            d = C.single_def(fn, l) if l is not None else None
+            if d is None:
+                break
+            if d[0] == "call":
+                cond = ("call", d[2])
+            elif d[0] == "=" and d[3][0] == "use":
+                cond = ("use", d[3][1])
+            elif d[0] == "=" and d[3][0] == "un" and d[3][1] == "Not":
+                cond = ("not", d[3][2])
+            else:
+                break
         while cond and cond[0] == "not":
             l = C.op_local(cond[1])
             d = C.single_def(fn, l) if l is not None else None
